@@ -1,30 +1,98 @@
-// C17 conformance harness: c17_wrappers OUT [order|strong|own|all] [quick|thorough] [seed] [OWNERSHIP_SCRIPTS]
-//   order   comparison / hash matrices of the value types        (c17_order.cpp)
-//   strong  strong_typedef operators and transparent wrappers    (c17_strong.cpp)
-//   own     smart-pointer ownership histories, wrapper conversions (c17_own.cpp; observed only)
+// C17 conformance harness, entry point.
+//
+//   c17_wrappers record OUT part quick|thorough seed skip [OWNERSHIP_SCRIPTS]
+//   c17_wrappers parts                    (lists the parts that were linked in)
+//
+// This translation unit includes NO fcppt header: it must compile on every tree.  Every other unit
+// (the sections of c17_order.cpp, c17_strong.cpp, c17_own.cpp) is compiled separately by
+// checks/c17.py and exports one entry point per part; the entry points are WEAK here, so that a
+// unit that no longer compiles against a changed tree is simply left out of the link
+// (checks/c17.py turns the compile failure into a VIOLATION `C17:<unit>:does-not-compile` for the
+// units that drive what the statement names, into an OBSERVATION for the observed-only units) while
+// all the other parts are still driven and judged.
+//
+//   order parts   comparison / hash matrices of the value types        (c17_order.cpp, one section per family)
+//   stops, wrap   strong_typedef operators; transparent wrappers      (c17_strong.cpp)
+//   own, wrapx    smart-pointer ownership histories, wrapper conversions (c17_own.cpp; observed only)
 // The harness only drives the real fcppt code and records; TLC (spec/OrderJudge.tla) judges.
-#include <common/vjson.hpp>
+#include "c17_common.hpp"
 
+#include <cstdio>
+#include <cstring>
 #include <string>
 
-void c17_order_records();
-void c17_strong_records(bool thorough, unsigned long long seed);
-void c17_ownership_records(char const *scripts, bool thorough, unsigned long long seed);
+#define C17_WEAK(name) extern "C" void c17_part_##name(unsigned long long, int, char const *) __attribute__((weak));
+#define C17_PARTS(X)                                                                                                \
+  X(optional) X(either) X(variant) X(tuple) X(array) X(record) X(strong) X(vector) X(matrix) X(box) X(sphere)      \
+  X(bitfield) X(enum_array) X(grid) X(tree) X(raw_vector) X(reference) X(shared_ptr) X(recursive) X(stops) X(wrap) \
+  X(own) X(wrapx)
+C17_PARTS(C17_WEAK)
+
+namespace
+{
+struct Part
+{
+  char const *name;
+  void (*fn)(unsigned long long, int, char const *);
+};
+
+void on_prof(int)
+{
+  vj::crash_line("hang", 68);
+  _exit(68);
+}
+}
 
 int main(int argc, char **argv)
 {
-  if (argc < 2)
+#define C17_ENTRY(name) {#name, c17_part_##name},
+  Part const parts[] = {C17_PARTS(C17_ENTRY)};
+  if (argc == 2 && std::strcmp(argv[1], "parts") == 0)
   {
-    std::fprintf(stderr, "usage: c17_wrappers OUT [order|strong|own|all] [quick|thorough] [seed] [scripts]\n");
+    for (Part const &p : parts)
+      if (p.fn != nullptr) std::printf("%s\n", p.name);
+    return 0;
+  }
+  if (argc < 7 || std::strcmp(argv[1], "record") != 0)
+  {
+    std::fprintf(stderr, "usage: c17_wrappers record OUT part quick|thorough seed skip [scripts] | c17_wrappers parts\n");
     return 3;
   }
-  std::string const what = argc > 2 ? argv[2] : "all";
-  bool const thorough = argc > 3 && std::string(argv[3]) == "thorough";
-  unsigned long long const seed = argc > 4 ? std::strtoull(argv[4], nullptr, 10) : 1ULL;
-  vj::open(argv[1]);
-  if (what == "order" || what == "all") c17_order_records();
-  if (what == "strong" || what == "all") c17_strong_records(thorough, seed);
-  if (what == "own" || what == "all") c17_ownership_records(argc > 5 ? argv[5] : nullptr, thorough, seed);
-  vj::close();
-  return 0;
+  int const thorough = std::strcmp(argv[4], "thorough") == 0 ? 1 : 0;
+  unsigned long long const seed = std::strtoull(argv[5], nullptr, 10);
+  c17::SKIP() = std::strtol(argv[6], nullptr, 10);
+  for (Part const &p : parts)
+  {
+    if (std::strcmp(p.name, argv[3]) != 0) continue;
+    if (p.fn == nullptr)
+    {
+      std::fprintf(stderr, "part %s was not linked in\n", p.name);
+      return 4;
+    }
+    vj::open(argv[2]);
+    std::signal(SIGPROF, on_prof);
+    try
+    {
+      p.fn(seed, thorough, argc > 7 ? argv[7] : nullptr);
+    }
+    catch (std::exception const &e)
+    {
+      // an exception the driven API does not document: reported like a crash, after the flushed
+      // record prefix that names the operation
+      std::fprintf(stderr, "uncaught exception: %s\n", e.what());
+      vj::crash_line("exception", 0);
+      _exit(67);
+    }
+    catch (...)
+    {
+      std::fprintf(stderr, "uncaught exception of unknown type\n");
+      vj::crash_line("exception", 0);
+      _exit(67);
+    }
+    c17::watchdog_disarm();
+    vj::close();
+    return 0;
+  }
+  std::fprintf(stderr, "unknown part %s\n", argv[3]);
+  return 3;
 }
